@@ -1377,3 +1377,66 @@ def check_newtype_verbatim(ctx, P, rule, types):
                     ctx.undecided(rule, inst, 'stored value %s not recognised' % describe(B, c))
             n += check_casts(ctx, B, rule, include_float=False)
     return n
+
+
+# ------------------------------------------------------------------ ERR: swallowed errors ----
+SWALLOWERS = ('ok', 'unwrap_or', 'unwrap_or_default', 'unwrap_or_else', 'map_or', 'map_or_else')
+WORKSPACE = ('erltf::', 'erltf_serde::', 'edp_client::', 'edp_node::', 'edp_elixir_terms::', '<erltf', '<edp_')
+
+
+def _fallible_source(P, B, op, depth=0, workspace=None):
+    """name of the workspace function whose Result this operand is (through .await and reference chains), else None"""
+    o = B.origin(op)
+    for _ in range(6):
+        if not isinstance(o, tuple) or not o:
+            return None
+        if o[0] == 'call':
+            n = str(o[1])
+            sig = P.F.fns.get(n)
+            if sig is not None and n.startswith(workspace or WORKSPACE):
+                return n
+            return None
+        if o[0] in ('awaited', 'awaited_value', 'payload', 'try', 'proj', 'cast') and len(o) > 1 and isinstance(o[1], tuple):
+            o = o[1]
+            continue
+        return None
+    return None
+
+
+def check_error_swallow(ctx, P, rule, scope, key_prefix='ERR', workspace=None):
+    """In functions that can themselves report failure (return Result), the Result of one of the repository's own fallible
+    functions is not converted into "nothing" or a default (ok(), unwrap_or*, map_or*): the caller would carry on with a value the
+    callee never produced.  Functions returning Option are exempt (there `.ok()?` IS the rejection).  Zero instances are expected;
+    the family is exercised on the positive fixture every run."""
+    n = 0
+    bad = 0
+    for q in sorted(P.F.bodies):
+        b_ = P.F.bodies[q]
+        if not any(x in q for x in scope) or '::tests::' in q:
+            continue
+        B = P.B(q)
+        if B is None:
+            continue
+        owner = q.split('::{')[0]
+        osig = P.F.fns.get(owner)
+        ret = (osig or {}).get('output', '') if osig else b_['locals'][0]['ty']
+        if 'Result<' not in str(ret) and 'Result<' not in str(b_['locals'][0]['ty']):
+            # closures of async fns: look at the enclosing function's declared output
+            if not (osig and 'Result<' in str(osig.get('output', ''))):
+                continue
+        for bb, t in B.calls():
+            nm = callee_of(t)[0] or ''
+            last = nm.rsplit('::', 1)[-1]
+            if not (nm.startswith('core::result::Result') and last in SWALLOWERS and t['args']):
+                continue
+            src = _fallible_source(P, B, t['args'][0], workspace=workspace)
+            if src is None:
+                continue
+            n += 1
+            bad += 1
+            ctx.bad(rule, '%s:%s(%s)' % (owner.rsplit('::', 1)[-1], last, src.rsplit('::', 1)[-1]),
+                    '%s turns the Result of %s into a value with %s(): its error is dropped and the function goes on as if the callee had produced that value'
+                    % (owner.rsplit('::', 1)[-1], src.rsplit('::', 2)[-2] + '::' + src.rsplit('::', 1)[-1], last), ctx.where(B, bb), key='%s:%s:%s-of-%s' % (key_prefix, owner, last, src.rsplit('::', 1)[-1]))
+    if bad == 0:
+        ctx.ok(rule, 'none', 'no Result of a repository function is turned into a default in %s' % ', '.join(sorted(scope)))
+    return n
